@@ -587,3 +587,13 @@ fn md5_digest(input: &[u8]) -> [u8; 16] {
     out.copy_from_slice(&result);
     out
 }
+
+#[cfg(rustrtc_verif)]
+impl TurnClient {
+    /// Verification hook (additive, `--cfg rustrtc_verif` only): position the ChannelBind
+    /// number allocator. The wrap at 0x7FFF is unreachable through the public API without
+    /// 16383 bindings.
+    pub async fn verif_set_next_channel(&self, n: u16) {
+        *self.next_channel.lock().await = n;
+    }
+}
